@@ -834,6 +834,13 @@ class Engine:
                     names.append(n.func.value.id)
             if isinstance(n, (ast.Subscript,)) and isinstance(n.ctx, ast.Store) and isinstance(n.value, ast.Name):
                 names.append(n.value.id)
+            if isinstance(n, ast.Call):
+                # a callee whose contract declares that it mutates a container argument in place: the variable passed there is (re)written
+                fname = n.func.attr if isinstance(n.func, ast.Attribute) else getattr(n.func, "id", None)
+                for c in (self.registry.contracts_named(fname) if fname else []):
+                    for kw in n.keywords:
+                        if kw.arg in getattr(c, "mutates_args", ()) and isinstance(kw.value, ast.Name):
+                            names.append(kw.value.id)
         return sorted(set(names))
 
     def written_fields(self, stmts, st) -> List[Tuple[str, str]]:
